@@ -145,6 +145,30 @@ CLAIMED = {
              'error, the visit terminates (deadlock / budget detection on virtual time). The per-URL tries bound over the whole crawl '
              'loop is checked by the crawl harness runs of this property (when built).',
         note='Trusted: the visit loop replicated from WebProcessorSession._process_loop; virtual clock makes 30 s read timeouts free.'),
+    'C01': dict(
+        level='exploration', engine='crawl', design_ref='4/C01',
+        technique='deterministic simulation of the whole application (Builder-built Application, SQLite table, scraper, filters, '
+                  'pool, HTTP client) crawling a generated site graph over a simulated network with tape-drawn latencies, '
+                  'segmentation, set orders, keep-alive and concurrency 1..4; request log and final table rows are compared with a '
+                  'breadth-first reference crawl over the known graph',
+        text='Seeded search over site graphs (cycles, diamonds, self and duplicate links, alternative spellings of the same URL, '
+             'same-host redirects, requisites, CSS url()), option combinations (-r, -l, -p, --no-parent, regex, -H, 1..3 start URLs), '
+             'concurrency and response orders. Oracle: no canonical URL requested twice, every URL the reference crawl fetches is '
+             'requested, nothing else is, exit status 0, termination, every row done/skipped, one row per canonical URL.',
+        note='Trusted: refs/site.py (canonical identities), refs/scope.py, the breadth-first reference (depth = shortest link '
+             'distance). Open known findings: redirect-target fetched twice; depth race under concurrency with -l.'),
+    'C02': dict(
+        level='exploration', engine='crawl', design_ref='4/C02',
+        technique='deterministic simulation of the whole application against sites that offer out-of-scope URLs; every request is '
+                  'attributed to its queue item through a monitor task + contextvar seen by the simulated transport, and judged '
+                  'at the server by an independent scope predicate',
+        text='Seeded search over subsets and parameters of the scope options (recursion, depth, requisites, no-parent, domains, '
+             'hostnames, span-hosts incl. --span-hosts-allow, regex, directories, suffix lists, tries, strong redirects) and sites '
+             'offering foreign hosts, upward paths, deep levels, rejected names/directories, cross-host redirects and transient 5xx. '
+             'Oracle per request: refs/scope.py on (URL, item record, options); waivers only for robots.txt and for the span-hosts '
+             'rule on a redirect hop with strong redirects.',
+        note='Trusted: refs/scope.py as the restatement of the documented option semantics (disagreements are resolved by hand: one '
+             'reference bug fixed, one genuine defect fixed). The same monitor also runs in C03\'s resumed runs.'),
 }
 
 PENDING_REASON = 'check not built yet in this round (designed in DESIGN.md section 4); no claim is made'
